@@ -455,7 +455,11 @@ class DocSync:
                     if dst[key] == value:
                         continue
                     elif isinstance(value, Mapping):
-                        self(src[key], dst[key], root + key + ".")
+                        nested_dst = dst[key]
+                        if isinstance(dst, _DocProxy):
+                            # Keep honoring dry_run for writes into nested mappings.
+                            nested_dst = _DocProxy(nested_dst, dry_run=dst.dry_run)
+                        self(src[key], nested_dst, root + key + ".")
                         continue
                     elif self.key_strategy is None or not self.key_strategy(root + key):
                         self.skipped_keys.add(root + key)
